@@ -74,7 +74,14 @@ def rule_release(ctx):
     def is_engine_open(n):
         return n.kind == "call" and isinstance(n.ast, ast.Call) and (prog.dotted(m, n.ast.func) or "").endswith("instance.FakeSnow")
 
+    # `with contextlib.closing(<engine connection>)`: leaving the block closes it, on every kind of exit
+    closing_lines = {n.lineno for n in ast.walk(fn) if isinstance(n, ast.With) and any(
+        isinstance(it.context_expr, ast.Call) and norm(it.context_expr.func).split(".")[-1] == "closing" and it.context_expr.args
+        and "duck_conn" in norm(it.context_expr.args[0]) for it in n.items)}
+
     def is_engine_close(n):
+        if n.kind == "with_exit" and getattr(n.ast, "lineno", -1) in closing_lines:
+            return True
         return (n.kind == "call" and isinstance(n.ast, ast.Call) and isinstance(n.ast.func, ast.Attribute)
                 and n.ast.func.attr == "close" and "duck_conn" in norm(n.ast.func.value))
 
